@@ -1,10 +1,18 @@
 //! rtverif — runtime-verification harness for int08h/roughenough.
 //! Invoked by /verif/check; one process per shard.
 
+mod c02;
 mod c04;
 mod c05;
+mod c07;
+mod c08;
+mod c09;
+mod c10;
+mod c12;
 mod c13;
 mod c14;
+mod c17;
+mod driver;
 mod codecgen;
 mod inproc;
 mod out;
@@ -75,6 +83,13 @@ fn main() {
             let mut o = out::Out::new();
             match prop.as_str() {
                 "C04" => c04::run(&ctx, &mut o),
+                "C02" | "C09" => c09::run(&ctx, &mut o, &prop),
+                "C07" => c07::run(&ctx, &mut o),
+                "C08" | "C20" => c08::run(&ctx, &mut o, &prop),
+                "C10" => c10::run_c10(&ctx, &mut o),
+                "C11" => c10::run_c11(&ctx, &mut o),
+                "C12" => c12::run(&ctx, &mut o),
+                "C17" => c17::run(&ctx, &mut o),
                 "C14" => c14::run(&ctx, &mut o),
                 "C13" => c13::run(&ctx, &mut o),
                 "C05" | "C06" => c05::run(&ctx, &mut o, &prop),
